@@ -390,7 +390,8 @@ func (s *Session) racCheck(prop string, u0 *Unit, o *Obligation, mv map[string]s
 		}
 	}
 	// conjuncts of a clause (under its implications' antecedents): A ==> (c1 && c2) gives A ==> c1, A ==> c2.
-	// A conjunct over ghost state that a run cannot observe (the allocation counter) is left out;
+	// A conjunct over ghost state that a run cannot observe (the allocation counter, the contents of
+	// the sync.Pool) is left out;
 	// the others are checked one by one.
 	var conjuncts func(e *SExpr) []*SExpr
 	conjuncts = func(e *SExpr) []*SExpr {
@@ -410,6 +411,9 @@ func (s *Session) racCheck(prop string, u0 *Unit, o *Obligation, mv map[string]s
 		t := e.String()
 		if !kernelOK && strings.Contains(t, "K(") {
 			return true // no kernel could be extracted from this tree: the clause has no meaning to evaluate
+		}
+		if strings.Contains(t, "inPool") || strings.Contains(t, "forallBuf") || strings.Contains(t, "poolNewIs") {
+			return true // pool ghost state: the contents of a sync.Pool cannot be dumped after a run
 		}
 		return strings.Contains(t, "allocs")
 	}
